@@ -6,8 +6,11 @@
       script : comma separated  ok | lo | la | cu | rb | ra | st<a> | sh | sq<d> | du | in   ("-" = empty)
     → per call, joined by ";" :  <outcome> <execs of the token during the call> <F|I|L|D> <seq> <connects> <events consumed> <unread>
       outcome = ret:<kind>:<token> | none | fail:closed|timeout|protocol|intr | stuck | end     (stops after `end`)
+      a trailing  SRC[...]  = what the transcription of the source (Gen/C03Src.lean) computes, when it differs
 -/
 import PyroModel.Call
+import PyroModel.CallOps
+import PyroModel.Gen.C03Src
 import Driver.Util
 
 open Pyro.Call Driver
@@ -77,6 +80,12 @@ def runCalls (retries : Nat) : List (Kind × Nat) → World → List Ev → List
     let used := w.length - w'.length
     let (pc, ql) := showPc W'.pc
     let line := s!"{showOutcome o} {execs tok W'} {pc} {W'.seq} {W'.connects} {used} {ql}"
+    -- the TRANSCRIPTION of the source (Gen/C03Src.lean) is evaluated on the same call; any difference from the hand model
+    -- (proved impossible by C03_call_translated while that proof builds) is flagged in the line, which the real side never has
+    let (o2, W2, w2) := Pyro.Gen.C03Src.callSrc false false retries k tok { W with log := [] } w
+    let (pc2, ql2) := showPc W2.pc
+    let line2 := s!"{showOutcome o2} {execs tok W2} {pc2} {W2.seq} {W2.connects} {w.length - w2.length} {ql2}"
+    let line := if line2 == line || o == .scriptEnd then line else s!"{line} SRC[{line2}]"
     match o with
     | .scriptEnd => (("end" :: acc)).reverse
     | _ => runCalls retries rest W' (s.drop used) (line :: acc)
